@@ -24,6 +24,12 @@ class Stop(BaseException):
     """an application's own exception that does not derive from Exception"""
 
 
+class BadStr(Exception):
+    """an exception that cannot even be printed"""
+    def __str__(self): raise RuntimeError("str() of this exception fails")
+    __repr__ = __str__
+
+
 class FalsyCallable(object):
     """a handler object whose truth value is False"""
     def __init__(self, f): self.f = f
@@ -220,6 +226,11 @@ class C05(Check):
         poxenv.boot(openflow=False)
         import pox.lib.revent.revent as rv
         self.rv = rv
+        import pox.core, importlib.util
+        self.hook_core = pox.core._revent_exception_hook           # what a running POX installs (and poxenv.boot has installed)
+        spec = importlib.util.spec_from_file_location("_revent_pristine", rv.__file__)
+        pristine = importlib.util.module_from_spec(spec); spec.loader.exec_module(pristine)
+        self.hook_default = pristine.handleEventException          # revent's own default, which pox.core replaces
         self.unknown_shapes = []
         try:
             self.variant_ast = self.detect_variant()
@@ -253,7 +264,8 @@ class C05(Check):
         buf = io.StringIO()
         with contextlib.redirect_stdout(buf), contextlib.redirect_stderr(buf):
             self.rv = importlib.reload(self.rv)
-        self.rv.handleEventException = None            # the reloaded module prints tracebacks to stderr by default
+        self.hook_default = self.rv.handleEventException   # the reloaded module has its own default hook again
+        self.rv.handleEventException = self.hook_core
         self._make_events()
 
     def shrink(self, case, key):
@@ -301,26 +313,52 @@ class C05(Check):
         if k == "other": return pick([0, 1, "x", [], [True, True], self.Point(True, True), 2.5])
         raise ValueError(k)
 
-    def _exc(self, e, v=0):
+    # what a scripted handler raises: an exception class of the scripted kind, with one of these argument tuples
+    MESSAGES = [("scripted",), (), ("",), ("line one\nline two\n",), ("h\u00e9llo \u2713 \u4f8b\u5916",), ("100% {} %s %d {0!r}",), (1,), (2, "No such thing"),
+                ("\n",), (b"bytes",), (None,)]
+
+    def _exc(self, e, v=0, mv=0):
         if e == "base":                  # not an Exception: raiseEventNoErrors' bare `except:` suppresses these too
-            return [Stop, GeneratorExit, SystemExit, KeyboardInterrupt][v % 4]("scripted")
-        return {"revent": self.rv.ReventError, "key": KeyError, "attr": AttributeError, "unbound": UnboundLocalError, "other": Boom}[e]("scripted")
+            cls = [Stop, GeneratorExit, SystemExit, KeyboardInterrupt][v % 4]
+        elif e == "other":
+            cls = [Boom, RuntimeError, ValueError, AssertionError, OSError, StopIteration, NotImplementedError, BadStr, UnicodeError, ZeroDivisionError][v % 10]
+        else:
+            cls = {"revent": self.rv.ReventError, "key": KeyError, "attr": AttributeError, "unbound": UnboundLocalError}[e]
+        x = cls(*self.MESSAGES[mv % len(self.MESSAGES)])
+        x._scripted = e                   # the harness made it: its kind is the scripted one whatever the class
+        return x
 
     @staticmethod
     def _kind(e):
-        return {"ReventError": "revent", "KeyError": "key", "AttributeError": "attr", "UnboundLocalError": "unbound", "Boom": "other", "Stop": "base", "GeneratorExit": "base", "SystemExit": "base",
-                "KeyboardInterrupt": "base",
+        k = getattr(e, "_scripted", None)
+        if k is not None: return k
+        return {"ReventError": "revent", "KeyError": "key", "AttributeError": "attr", "UnboundLocalError": "unbound",
                 "TypeError": "other"}.get(type(e).__name__, type(e).__name__)
 
     # ------------------------------------------------------------------ the implementation run
+    HOOKS = ("core", "core-live", "none", "default")
     def impl(self, case):
+        """which handleEventException hook raiseEventNoErrors finds: the one a running POX has (pox.core's, which logs) with logging
+        silenced as everywhere in the harness ("core") or really formatting and emitting the record ("core-live"), none, or revent's own
+        default (prints a traceback)"""
+        import logging
         buf = io.StringIO()
         hook = sys.unraisablehook
         sys.unraisablehook = lambda *a: None      # a weakref callback after clearHandlers() hits a KeyError; CPython only prints it
+        mode = self.HOOKS[case.get("hook", 0) % 4]
+        saved_hook = self.rv.handleEventException
+        self.rv.handleEventException = {"core": self.hook_core, "core-live": self.hook_core, "none": None, "default": self.hook_default}[mode]
+        handler = None
+        if mode == "core-live":
+            handler = logging.StreamHandler(buf); handler.setFormatter(logging.Formatter("%(levelname)s:%(name)s:%(message)s"))
+            logging.getLogger().addHandler(handler); logging.disable(logging.NOTSET)
         try:
-            with contextlib.redirect_stdout(buf):
+            with contextlib.redirect_stdout(buf), contextlib.redirect_stderr(buf):
                 return self._impl(case)
         finally:
+            if handler is not None:
+                logging.disable(logging.CRITICAL); logging.getLogger().removeHandler(handler)
+            self.rv.handleEventException = saved_hook
             sys.unraisablehook = hook
 
     def _impl(self, case):
@@ -403,7 +441,7 @@ class C05(Check):
                     else:
                         log.append(["res", r])
                 if sc["ret"]["k"] == "exc":
-                    raise self._exc(sc["ret"]["e"], sc["ret"].get("v", 0))
+                    raise self._exc(sc["ret"]["e"], sc["ret"].get("v", 0), sc["ret"].get("mv", 0))
             except BaseException as e:       # scripted SystemExit / KeyboardInterrupt must not end the run
                 log.append(["ret", fid, hid, ["exc", self._kind(e)], bool(event.halt)])
                 raise
@@ -944,6 +982,14 @@ class C05(Check):
                               [(2, [sc(ret="exc", e="base", v=v)]), (1, [sc(), sc(ret="exc", e="base", v=v), sc()])]))
                 S.append(case([add(0, 1), add(1, 2), R(0, form, True), R(0, form, False)],
                               [(1, [sc([(R(1, form, True), False), (R(1, form, False), True), (R(1, form, False), False)])] * 2), (2, [sc(ret="exc", e="base", v=v)] * 6)]))
+        # the exception hook (a running POX's, live or silenced; none; revent's default) x what the handler raises (class x message: empty,
+        # multi-line, non-ASCII, %-and-{} directives, non-str arguments, unprintable) x raise form: suppressed with, let through without
+        for hook in range(4):
+            for form in ("inst", "cls"):
+                for mv in range(len(self.MESSAGES)):
+                    S.append(dict(case([add(0, 1), add(0, 2), add(0, 3), R(0, form, True), R(0, form, False), R(0, form, True), cnt()],
+                                       [(2, [sc(ret="exc", e="other", v=mv + hook, mv=mv), sc(ret="exc", e=["key", "revent", "other", "base"][mv % 4], v=7, mv=mv),
+                                             sc(ret="exc", e="other", v=7, mv=(mv + 1) % 3)])]), hook=hook))
         # HARDENING 1/2 (hidden or shared state): two instances of ONE source class must not share anything; the same handler on both
         for kind in ("set", "list", "tuple", "frozenset"):
             twin = [source([0, 1], kind=kind, cls=1), source([0, 1], kind=kind, cls=1)]
@@ -1150,7 +1196,9 @@ class C05(Check):
         r = {"k": k, "v": rng.randint(0, 11)}
         if k in ("tup1", "tup2"): r["h"] = rng.random() < 0.4
         if k == "tup2": r["r"] = rng.random() < 0.5
-        if k == "exc": r["e"] = rng.choice(["other", "other", "other", "key", "revent", "base"])
+        if k == "exc":
+            r["e"] = rng.choice(["other", "other", "other", "key", "revent", "base"])
+            if rng.random() < 0.6: r["mv"] = rng.randint(0, len(self.MESSAGES) - 1)
         return r
 
     DECL = [[0, 1], [0, 1], [0, 1, 2], [0], [0, 3], [3, 4], [0, 1, 5], [1, 3, 5]]
@@ -1175,7 +1223,9 @@ class C05(Check):
                     halt = rng.choice([True, True, False]) if rng.random() < 0.15 else None
                     sl.append({"halt": halt, "acts": acts, "ret": self.rand_ret(rng)})
                 scripts.append([hid, sl])
-        return {"sources": sources, "ops": ops, "scripts": scripts}
+        c_ = {"sources": sources, "ops": ops, "scripts": scripts}
+        if rng.random() < 0.35: c_["hook"] = rng.randint(1, 3)
+        return c_
 
     def generate(self, rng, tier):
         n = 2500 if tier == "quick" else 25000
